@@ -20,6 +20,7 @@ func (w *Proxy) checkAll() {
 	w.checkC02()
 	w.checkC03()
 	w.checkC14()
+	w.checkC17()
 }
 
 type poolBooks interface {
@@ -125,6 +126,9 @@ func (w *Proxy) checkC10Quiescent() {
 // ---- C01: forwarding fidelity (xprotocol, byte level) ----
 func (w *Proxy) checkC01() {
 	s := w.S
+	if w.P.Acts != nil {
+		return // the routes rewrite on purpose: C17's reference model judges what the upstream must see
+	}
 	w.checkC01H1()
 	for _, u := range w.ups {
 		if u.ParseErr != nil && w.P.Garbage == 0 {
@@ -202,6 +206,9 @@ func (w *Proxy) checkC02() {
 				continue
 			}
 			if rep.Tok == "" {
+				if rep.Success && w.P.Acts != nil && r.Extra["svc"] == "svc2" {
+					continue // a configured direct response may carry any status
+				}
 				if rep.Success {
 					s.Violate("C02", "anonymous_success", "req#%d got a success reply that carries no token (not produced by any upstream exchange)", r.Idx)
 				}
